@@ -421,7 +421,7 @@ impl TaskWaker {
             self.sender.role() is Ready,
         ensures
             *final(w) == (World { ready: old(w).ready + 1, ..*old(w) }), // [C01/TaskWaker::wake/waking-by-value-does-what-waking-by-reference-does]
-//@rule X6.world * s/self\.wake_by_ref\(\)/self.wake_by_ref(Tracked(w))/
+//@rule X6.world * s/(?:self\.wake_by_ref\(\)|Self::wake_by_ref\(&self\))/self.wake_by_ref(Tracked(w))/
 //@end
 
 //@extract id=TaskWaker::wake_by_ref file=crux_core/src/capability/executor.rs within="impl Wake for TaskWaker" item="fn wake_by_ref" props=C01
@@ -1044,7 +1044,7 @@ pub mod core_m {
 //@rule X11.module-path 1 s/capability::executor_and_spawner\(\)/executor_and_spawner()/
 //@rule X5.user-types 1 s/model: Default::default\(\),/model: new_model_lock(),/
 //@rule X5.user-types 1 s/app: Default::default\(\),/app: default_app(),/
-//@rule X5.user-types 1 s/<<A as App>::Capabilities>::new_with_context\(proto_context\)/new_capabilities::<A>(proto_context)/
+//@rule X5.user-types 1 s/<<A as App>::Capabilities>::new_with_context\((\w+)\)/new_capabilities::<A>(\1)/
 //@end
 
 //@extract id=Core::process_event file=crux_core/src/core/mod.rs within="impl<A> Core<A>" item="fn process_event" props=C01+C03
@@ -1219,7 +1219,7 @@ pub mod command_m {
                 final(w).host_woken, // [C01/CommandWaker::wake/the-commands-host-is-woken-too]
                 self.woken.is_current_poll_flag() ==> final(w).p_woken, // [C01+C07/CommandWaker::wake/a-waker-consumed-by-value-still-records-that-it-was-used]
                 *final(w) == (World { c_ready: final(w).c_ready, host_woken: true, p_woken: final(w).p_woken, ..*old(w) }),
-//@rule X6.world * s/self\.wake_by_ref\(\)/self.wake_by_ref(Tracked(w))/
+//@rule X6.world * s/(?:self\.wake_by_ref\(\)|Self::wake_by_ref\(&self\))/self.wake_by_ref(Tracked(w))/
 //@rule X6.world * s/\.wake\(\)/.wake(Tracked(w))/
 //@end
 
@@ -1425,7 +1425,7 @@ pub mod command_m {
                 r.register_waker.role() is JoinWakers, // [C07/CommandContext::spawn/the-join-handle-registers-its-wakers-with-the-new-task]
 //@rule X6.channel-role 1 s/crossbeam_channel::unbounded\(\)/new_channel(Tracked(w), Ghost(Role::JoinWakers))/
 //@rule X6.flag-role 2 s/(finished|aborted): Default::default\(\),/\1: new_flag(Tracked(w), Ghost(Flag::Other)),/
-//@rule X6.user-code 1 s/let future = make_future\(ctx\);/let future = call_task_maker(Tracked(w), make_future, ctx);/
+//@rule X6.user-code 1 s/let future = make_future\(([^;]*)\);/let future = call_task_maker(Tracked(w), make_future, \1);/
 //@rule X5.boxed 1 s/future\.boxed\(\)/boxed(future)/
 //@end
 
@@ -1536,7 +1536,7 @@ pub mod command_m {
 //@rule X6.channel-role 1 s/let \(spawn_sender, spawn_receiver\) = crossbeam_channel::unbounded\(\);/let (spawn_sender, spawn_receiver) = new_channel(Tracked(w), Ghost(Role::CSpawn));/
 //@rule X6.channel-role 1 s/let \(_, waker_receiver\) = crossbeam_channel::unbounded\(\);/let (_, waker_receiver) = new_channel(Tracked(w), Ghost(Role::Other));/
 //@rule X11.module-path 1 s/context::CommandContext \{/CommandContext {/
-//@rule X6.flag-role 1 s/let aborted: Arc<AtomicBool> = Default::default\(\);/let aborted: Arc<AtomicBool> = new_flag(Tracked(w), Ghost(Flag::CommandAborted));/
+//@rule X6.flag-role 1 s/let aborted(?:: Arc<AtomicBool>)? = (?:Default::default\(\)|Arc::<AtomicBool>::default\(\)|Arc::default\(\));/let aborted: Arc<AtomicBool> = new_flag(Tracked(w), Ghost(Flag::CommandAborted));/
 //@rule X6.flag-role 1 s/finished: Default::default\(\),/finished: new_flag(Tracked(w), Ghost(Flag::Other)),/
 //@rule X5.atomic-waker 1 s/waker: Default::default\(\),/waker: new_atomic_waker(),/
 //@rule X6.user-code 1 s/create_task\(context\.clone\(\)\)\.boxed\(\)/boxed(call_task_maker(Tracked(w), create_task, context.clone()))/
@@ -1550,7 +1550,7 @@ pub mod command_m {
                 r.wf(),
                 final(w).c_ready == 1 && final(w).c_spawn == 0 && final(w).c_events.len() == 0 && final(w).c_effects.len() == 0 && !final(w).c_aborted, // [C01+C07/Command::done/a-new-command-with-one-ready-task-and-nothing-queued]
                 !(r.tasks@.dom() =~= Set::<usize>::empty()) && (forall|k1: usize, k2: usize| #![auto] r.tasks@.dom().contains(k1) && r.tasks@.dom().contains(k2) ==> k1 == k2),
-//@rule X5.ready 1 s/Command::new\(\|_ctx\| futures::future::ready\(\(\)\)\)/Command::new(Tracked(w), quiet(|_ctx: CommandContext<Effect, Event>| -> (res: ReadyFuture) { ready_future() }))/
+//@rule X5.ready 1 s/Command::new\(\|_\w*\| futures::future::ready\(\(\)\)\)/Command::new(Tracked(w), quiet(|_ctx: CommandContext<Effect, Event>| -> (res: ReadyFuture) { ready_future() }))/
 //@end
 
 //@extract id=Command::all file=crux_core/src/command/mod.rs within="impl<Effect, Event> Command<Effect, Event>" item="fn all" props=C01+C06
@@ -1561,13 +1561,14 @@ pub mod command_m {
                 r.wf(), // [C06/Command::all/the-result-is-a-command-of-its-own-not-one-of-the-given-ones]
                 final(w).c_spawn == commands.len(), // [C01+C06/Command::all/every-given-command-is-hosted-by-its-own-task-of-the-new-command]
                 final(w).c_ready == 1 && !final(w).c_aborted && final(w).c_events.len() == 0 && final(w).c_effects.len() == 0, // [C06/Command::all/the-new-command-starts-unaborted-with-nothing-queued]
+//@bind acc let mut (\w+) = Command::done\(\);
 //@rule X6.world 1 s/Command::done\(\)/Command::done(Tracked(w))/
-//@rule X1.for-iterator 1 s/for c in commands \{/for c in it: commands {/
-//@rule X5.hosting-closure 1 s/command\.spawn\(\|ctx\| c\.host\(ctx\.effects, ctx\.events\)\.map\(\|_\| \(\)\)\)/command.spawn(Tracked(w), quiet(|ctx: CommandContext<Effect, Event>| -> (res: HostFuture) { host_future(c, ctx) }));/
+//@rule X1.for-iterator 1 s/for (\w+) in commands \{/for \1 in it: commands {/
+//@rule X5.hosting-closure 1 s/(\w+)\.spawn\(\s*(?:move )?\|(\w+)\| (\w+)\.host\(\2\.effects, \2\.events\)\.map\(\|_\w*\| \(\)\)\s*\);?/\1.spawn(Tracked(w), quiet(|\2: CommandContext<Effect, Event>| -> (res: HostFuture) { host_future(\3, \2) }));/
 //@loops 1
 //@loop 1
                 invariant
-                    command.wf(),
+                    $acc.wf(),
                     w.c_spawn == it.index@, // [C01+C06/Command::all/loop/one-task-queued-per-command-taken-so-far]
                     w.c_ready == 1 && !w.c_aborted && w.c_events.len() == 0 && w.c_effects.len() == 0,
 //@end
@@ -1581,7 +1582,7 @@ pub mod command_m {
             ensures
                 r == self, // [C06/Command::and/the-result-is-this-command-itself]
                 *final(w) == (World { c_spawn: old(w).c_spawn + 1, ..*old(w) }), // [C01+C06/Command::and/the-other-command-is-hosted-by-one-new-task-and-nothing-else-changes]
-//@rule X5.hosting-closure 1 s/self\.spawn\(\|ctx\| other\.host\(ctx\.effects, ctx\.events\)\.map\(\|_\| \(\)\)\)/self.spawn(Tracked(w), quiet(|ctx: CommandContext<Effect, Event>| -> (res: HostFuture) { host_future(other, ctx) }))/
+//@rule X5.hosting-closure 1 s/self\.spawn\(\s*(?:move )?\|(\w+)\| (\w+)\.host\(\1\.effects, \1\.events\)\.map\(\|_\w*\| \(\)\)\s*\)/self.spawn(Tracked(w), quiet(|\1: CommandContext<Effect, Event>| -> (res: HostFuture) { host_future(\2, \1) }))/
 //@rule X19.mut-self * s/\bself\b/this/
 //@entry
             let mut this = self;
